@@ -17,7 +17,7 @@ VARIABLES
   gen,        \* number of generations created so far; generation ids are 1..gen
   memberID,   \* 0: none, else the id the coordinator assigned (stays across generations)
   g,          \* per generation: [done, closed, routines, joined, closeWaiting]
-  fn,         \* per function <<generation, k>>: "running" | "returned"; k = 0 is the heartbeat loop
+  fn,         \* per function <<generation, k>>: "running" | "returned"; k = 0 is the heartbeat loop, k < 0 the partition watchers
   tracked,    \* set of functions counted in g.routines
   apc,        \* application: "idle" | "next" (blocked in Next) | "holding" (has a generation) | "done"
   held,       \* generation the application got from Next (0: none)
@@ -73,8 +73,12 @@ Init ==
 (* nextGeneration up to the creation of the Generation: coordinator(),     *)
 (* joinGroup, syncGroup, fetchOffsets.  Any of them may fail.              *)
 (***************************************************************************)
-JoinOK ==
-  /\ rpc = "join" /\ ~cgdone /\ gen < MaxGens
+\* (lax: the guard ~cgdone is dropped.  nextGeneration does not look at cg.done before its first select, so the
+\* code can create a generation after Close was called; it then ends it at once (GenCloseBegin with rpc = "offer").
+\* The model checked by TLC abstracts this into JoinWhenClosed; the trace validation (GroupTrace.tla) uses the
+\* lax form for traces that show it.)
+JoinOKx(lax) ==
+  /\ rpc = "join" /\ (lax \/ ~cgdone) /\ gen < MaxGens
   /\ gen' = gen + 1
   /\ memberID' = IF memberID = 0 THEN gen + 1 ELSE memberID
   /\ g' = Append(g, [NewG EXCEPT !.routines = 1])              \* gen.heartbeatLoop: Start (tracked)
@@ -84,21 +88,40 @@ JoinOK ==
   /\ rpc' = "offer"
   /\ Ev("created", gen + 1)
   /\ UNCHANGED <<apc, held, cgdone, closeRet, lastErr, faults, leaves, hbOut>>
+JoinOK == JoinOKx(FALSE)
+
+\* With WatchPartitionChanges the run loop starts, after the heartbeat loop and before it offers the generation,
+\* one partition watcher per topic through the same Generation.Start: functions <<gen, -1>>, <<gen, -2>>, ...
+\* (they return like application functions: FnReturn).  Watchers = 0 (no watcher) unless a configuration
+\* overrides the definition, so the model-checking configurations explore what they explored before.
+Watchers == 0
+WatchStart(j) ==
+  /\ rpc = "offer" /\ j >= 1 /\ <<gen, -j>> \notin DOMAIN fn
+  /\ \A i \in 1 .. j - 1 : <<gen, -i>> \in DOMAIN fn
+  /\ fn' = (<<gen, -j>> :> "running") @@ fn
+  /\ IF g[gen].closed
+       THEN UNCHANGED <<g, tracked>> /\ Ev("startUntracked", gen)
+       ELSE /\ g' = [g EXCEPT ![gen].routines = @ + 1]
+            /\ tracked' = tracked \cup {<<gen, -j>>}
+            /\ Ev("start", gen)
+  /\ UNCHANGED <<rpc, gen, memberID, apc, held, started, cgdone, closeRet, lastErr, faults, leaves, hbOut>>
 
 \* a failure: RebalanceInProgress keeps the member id, anything else leaves the group and backs off.
 \* (The coordinator may have assigned a member id before the failure, e.g. sync failing after join.)
-JoinFail(kind, gotID) ==
-  /\ rpc = "join" /\ ~cgdone /\ faults < MaxFaults
+JoinFailx(kind, gotID, lax) ==
+  /\ rpc = "join" /\ (lax \/ ~cgdone) /\ faults < MaxFaults
   /\ faults' = faults + 1
   /\ memberID' = IF gotID /\ memberID = 0 THEN gen + 100 ELSE memberID
   /\ lastErr' = kind
   /\ rpc' = IF kind = "rebalance" THEN "reporterr" ELSE "leave"
   /\ Ev(IF kind = "rebalance" THEN "joinfailRebalance" ELSE "joinfailOther", gen)
   /\ UNCHANGED <<gen, g, fn, tracked, apc, held, started, cgdone, closeRet, leaves, hbOut>>
+JoinFail(kind, gotID) == JoinFailx(kind, gotID, FALSE)
 
 \* select { cg.done -> gen.close(), ErrGroupClosed ; cg.next <- &gen }
 Offer ==
   /\ rpc = "offer" /\ apc = "next"
+  /\ \A j \in 1 .. Watchers : <<gen, -j>> \in DOMAIN fn
   /\ apc' = "holding" /\ held' = gen
   /\ rpc' = "live"
   /\ Ev("next", gen)
@@ -138,11 +161,15 @@ FnReturn(f, voluntary) ==
   /\ UNCHANGED <<rpc, gen, memberID, tracked, apc, held, started, cgdone, closeRet, lastErr, faults, leaves, hbOut>>
 
 \* heartbeat loop: ticker fires, heartbeat sent (only while the context is not done)
-HeartbeatSend(n) ==
-  /\ <<n, 0>> \in DOMAIN fn /\ fn[<<n, 0>>] = "running" /\ ~g[n].done /\ hbOut = 0
+\* (lax: the guard ~g[n].done is dropped.  The loop's select { ctx.Done ; ticker.C } may take the ticker when both
+\* are ready, and a request sent just before the context ended reaches the coordinator after it; used by the
+\* trace validation only, see GroupTrace.tla.)
+HeartbeatSendx(n, lax) ==
+  /\ <<n, 0>> \in DOMAIN fn /\ fn[<<n, 0>>] = "running" /\ (lax \/ ~g[n].done) /\ hbOut = 0
   /\ hbOut' = n
   /\ Ev("heartbeat", n)
   /\ UNCHANGED <<rpc, gen, memberID, g, fn, tracked, apc, held, started, cgdone, closeRet, lastErr, faults, leaves>>
+HeartbeatSend(n) == HeartbeatSendx(n, FALSE)
 
 \* the coordinator answers the heartbeat: ok, or an error (rebalance, illegal generation, dropped): the loop returns
 HeartbeatReply(ok) ==
@@ -231,6 +258,7 @@ CloseReturn ==
 Next ==
   \/ JoinOK \/ Offer \/ AppNext \/ GenCloseBegin \/ GenCloseEnd \/ Leave \/ ReportErr \/ Backoff
   \/ JoinWhenClosed \/ CloseCall \/ CloseReturn
+  \/ \E j \in 1 .. Watchers : WatchStart(j)
   \/ \E k \in {"rebalance", "other"}, b \in BOOLEAN : JoinFail(k, b)
   \/ \E n \in 1 .. gen : Start(n) \/ HeartbeatSend(n) \/ HeartbeatStop(n)
   \/ \E f \in DOMAIN fn, v \in BOOLEAN : FnReturn(f, v)
